@@ -157,11 +157,30 @@ func (cs *checkState) run() int {
 			}
 		}()
 	}
+	known := loadKnown()
+	stoppedEarly := false
 	for _, t := range tasks {
+		// a batch that has already produced plenty of new violations has decided the check: stop exploring
+		mu.Lock()
+		fresh := 0
+		for _, v := range viols {
+			if known.match(cs.prop, v.Class, v.Sig) == nil {
+				fresh++
+			}
+		}
+		mu.Unlock()
+		if fresh >= 25 {
+			stoppedEarly = true
+			break
+		}
 		ch <- t
 	}
 	close(ch)
 	wg.Wait()
+	if stoppedEarly {
+		fmt.Printf("verif: stopped dispatching further runs after %d violation records\n", len(viols))
+	}
+	agg.stoppedEarly = stoppedEarly
 	exploreWall := time.Since(cs.start).Seconds()
 
 	// violations: split into known findings and new ones
@@ -171,7 +190,6 @@ func (cs *checkState) run() int {
 		}
 		return viols[i].Run < viols[j].Run
 	})
-	known := loadKnown()
 	knownHit := map[string]int{}
 	var fresh []violation
 	for _, v := range viols {
